@@ -107,6 +107,10 @@ def check(ctx, report):
                              modules={'cryptoparser.ssh.key'},
                              title='structures of host keys and certificates are composed as held: items in stored order, no constant in place of an attribute')
     report.floor('C16.R9', 100, 'fields of host key / certificate structures')
+    # ---- R11: the strings inside a key or certificate reach the object as they were on the wire (rule shared with C11.R12)
+    from .c11 import octets_unchanged
+    octets_unchanged(ctx, report, RULE='C16.R11', classes=('ParserBase', 'ParserBinary', 'ComposerBase', 'ComposerBinary'),
+                     title='length-prefixed strings of keys and certificates are decoded and written unchanged (no strip / case mapping / replace in the primitives)')
     # ---- R10: hassh reads the name-lists from the attributes of the message: every list of the KEXINIT is parsed into the attribute
     # the composer writes at that position (binding comparison shared with C01.R2)
     fields_written_as_stored(ctx, report, RULE='C16.R10', kinds=None, what=('',), modules={'cryptoparser.ssh.subprotocol'},
